@@ -105,6 +105,17 @@ func discharge(ob *Obligation, query string, dir string, timeoutMs int, all bool
 	}
 	r := runSolver(solvers[0], file, timeoutMs)
 	results = append(results, r)
+	// `unknown` on a quantified goal depends on the instantiation order: two
+	// more attempts with other random seeds before the other solvers are asked
+	// (an obligation still counts only on `unsat`)
+	for seed := 1; seed <= 2 && r.verdict == "unknown"; seed++ {
+		sd := seed
+		reseeded := solverSpec{fmt.Sprintf("z3-5.1.0/seed%d", sd), func(f string, ms int) []string {
+			return []string{"z3-new", fmt.Sprintf("-t:%d", ms), fmt.Sprintf("smt.random_seed=%d", sd), f}
+		}}
+		r = runSolver(reseeded, file, timeoutMs)
+		results = append(results, r)
+	}
 	if r.verdict != "unsat" || all {
 		if !(r.verdict == "sat" && !all) {
 			var wg sync.WaitGroup
